@@ -59,6 +59,11 @@ func newArrayWithParser(parser *Parser) (*Array, error) {
 		if msg == nil {
 			return nil, io.ErrUnexpectedEOF
 		}
+		// An element whose line was ended by the end of the stream instead of CRLF was not
+		// received completely, so the array is incomplete too.
+		if !parser.lineEnded {
+			return nil, io.ErrUnexpectedEOF
+		}
 		msgs = append(msgs, msg)
 	}
 	array := &Array{
